@@ -1,9 +1,230 @@
-(* C12 property theorems: statements only, each closed by `exact`, with Print Assumptions. *)
-From Coq Require Import ZArith QArith List Bool.
-From QE Require Import Base.Num Base.LinAlg Base.Gauss C12.Model C12.Proofs.
+(* C12 property theorems: statements only, each closed by `exact`, with Print Assumptions,
+   plus Examples showing that the hypotheses are satisfiable by concrete non-trivial objects. *)
+From Coq Require Import ZArith QArith List Bool Lia.
+From QE Require Import Base.Num Base.LinAlg Base.Gauss C12.Model C12.Proofs C12.Proofs2 C12.Proofs3 C12.Proofs4 C12.Proofs5.
 Import ListNotations.
+Local Open Scope Q_scope.
 
-Theorem C12_moment_seq_length : forall n m k l (A C G : Qmat) Ho t mu Sx,
-  length (moment_seq n m k l A C G Ho t mu Sx) = t.
+(* ---------------------------------------------------------------- Kalman *)
+(* measurement update = Joseph form (I-MG) Sigma (I-MG)' + M R M' whenever F is invertible *)
+Theorem C12_kalman_joseph : forall n k l (G Hm xhat Sg y x' S' : Qmat),
+  prior_to_filtered n k l G Hm (xhat, Sg) y = Some (x', S') ->
+  exists Fi, is_inv k (kal_F n k G (outer k l Hm) Sg) Fi /\
+    let M := kal_M n k G Sg Fi in
+    x' = madd n 1 xhat (mmul n k 1 M (msub k 1 y (mmul k n 1 G xhat))) /\
+    meq n n S' (madd n n (mmul n n n (mmul n n n (msub n n (mid n) (mmul n k n M G)) Sg)
+                                     (mtr n n (msub n n (mid n) (mmul n k n M G))))
+                         (mmul n k n (mmul n k k M (outer k l Hm)) (mtr n k M))).
+Proof. exact kalman_joseph. Qed.
+Print Assumptions C12_kalman_joseph.
+
+(* hence symmetry and positive semidefiniteness are preserved by update, along every record *)
+Theorem C12_kalman_sym_psd : forall n m k l (A C G Hm : Qmat) ys st,
+  msym n (snd st) /\ mpsd n (snd st) ->
+  forall st', In (Some st') (kalman_path n m k l A C G Hm st ys) -> msym n (snd st') /\ mpsd n (snd st').
+Proof. exact kalman_path_sym_psd. Qed.
+Print Assumptions C12_kalman_sym_psd.
+
+Theorem C12_kalman_update_sym_psd : forall n m k l (A C G Hm : Qmat) st y st',
+  update n m k l A C G Hm st y = Some st' ->
+  msym n (snd st) /\ mpsd n (snd st) -> msym n (snd st') /\ mpsd n (snd st').
+Proof. exact update_sym_psd. Qed.
+Print Assumptions C12_kalman_update_sym_psd.
+
+(* one update = conditioning the joint law of (y_0, x_1) on y_0 (any dimensions, symmetric prior covariance) *)
+Theorem C12_kalman_one_step_is_conditioning : forall n m k l (A C G Hm xh0 S0 y xb Sb xk Sk : Qmat),
+  msym n S0 ->
+  batch_conditional n m k l A C G Hm xh0 S0 [y] = Some (xb, Sb) ->
+  update n m k l A C G Hm (xh0, S0) y = Some (xk, Sk) ->
+  meq n 1 xb xk /\ meq n n Sb Sk.
+Proof. exact kalman_one_step_is_conditioning. Qed.
+Print Assumptions C12_kalman_one_step_is_conditioning.
+
+(* sequential = batch, for EVERY non-empty observation record and all dimensions: whenever both are defined, the
+   state held after the record is the conditional mean/covariance of x_t given y_0..y_{t-1} under the joint law
+   (orthogonality argument: normal equations for the accumulated gains, coq/C12/Proofs4.v) *)
+Theorem C12_kalman_equals_batch : forall n m k l (A C G Hm xh0 S0 : Qmat) (ys : list Qmat) xb Sb xk Sk,
+  (0 < k)%nat -> msym n S0 -> ys <> [] ->
+  batch_conditional n m k l A C G Hm xh0 S0 ys = Some (xb, Sb) ->
+  last (kalman_path n m k l A C G Hm (xh0, S0) ys) None = Some (xk, Sk) ->
+  meq n 1 xb xk /\ meq n n Sb Sk.
+Proof. exact kalman_equals_batch. Qed.
+Print Assumptions C12_kalman_equals_batch.
+
+(* not proved: batch_conditional is defined (Var(y) non-singular) iff no update of the recursion raises;
+   decided per case by the correspondence run (None must match None) *)
+Definition kalman_defined_iff_batch_defined_full : Prop :=
+  forall n m k l (A C G Hm xh0 S0 : Qmat) (ys : list Qmat),
+  (0 < k)%nat -> msym n S0 -> mpsd n S0 -> ys <> [] ->
+  (batch_conditional n m k l A C G Hm xh0 S0 ys = None <->
+   last (kalman_path n m k l A C G Hm (xh0, S0) ys) None = None).
+
+(* a solution of the dual Riccati equation and its gain are a fixed point of update *)
+Theorem C12_kalman_stationary_fixed_point : forall n m k l (A C G Hm Sinf Fi Kinf xhat y : Qmat) st',
+  is_inv k (kal_F n k G (outer k l Hm) Sinf) Fi ->
+  meq n n Sinf (dual_riccati_rhs n k A G (outer n m C) Fi Sinf) ->
+  stationary_K n k l A G Hm Sinf = Some Kinf ->
+  update n m k l A C G Hm (xhat, Sinf) y = Some st' ->
+  meq n n (snd st') Sinf /\
+  meq n k Kinf (mmul n n k A (kal_M n k G Sinf Fi)) /\
+  meq n 1 (fst st') (madd n 1 (mmul n n 1 A xhat) (mmul n k 1 Kinf (msub k 1 y (mmul k n 1 G xhat)))).
+Proof. exact kalman_stationary_fixed_point. Qed.
+Print Assumptions C12_kalman_stationary_fixed_point.
+
+(* ---------------------------------------------------------------- LinearStateSpace *)
+Theorem C12_lss_moments : forall n m k l (A C G : Qmat) Ho T mu0 S0 t mx my Sx Sy,
+  nth_error (moment_seq n m k l A C G Ho T mu0 S0) t = Some (mx, my, Sx, Sy) ->
+  meq n 1 mx (mmul n n 1 (mpow n A t) mu0) /\
+  meq n n Sx (madd n n (mmul n n n (mmul n n n (mpow n A t) S0) (mtr n n (mpow n A t)))
+                (msum n n t (fun j => mmul n n n (mmul n n n (mpow n A j) (outer n m C)) (mtr n n (mpow n A j))))) /\
+  my = mmul k n 1 G mx /\ Sy = obs_cov n k l G Ho Sx.
+Proof. exact lss_moments. Qed.
+Print Assumptions C12_lss_moments.
+
+Theorem C12_lss_moments_length : forall n m k l (A C G : Qmat) Ho T mu0 S0,
+  length (moment_seq n m k l A C G Ho T mu0 S0) = T.
 Proof. exact moment_seq_length. Qed.
-Print Assumptions C12_moment_seq_length.
+Print Assumptions C12_lss_moments_length.
+
+Theorem C12_lss_impulse : forall n m k (A C G : Qmat) j i xc yc,
+  nth_error (fst (impulse_response n m k A C G j)) i = Some xc ->
+  nth_error (snd (impulse_response n m k A C G j)) i = Some yc ->
+  meq n m xc (mmul n n m (mpow n A i) C) /\
+  meq k m yc (mmul k n m G (mmul n n m (mpow n A i) C)).
+Proof. exact lss_impulse. Qed.
+Print Assumptions C12_lss_impulse.
+
+Theorem C12_lss_impulse_length : forall n m k (A C G : Qmat) j,
+  length (fst (impulse_response n m k A C G j)) = S j /\ length (snd (impulse_response n m k A C G j)) = S j.
+Proof. exact impulse_response_length. Qed.
+Print Assumptions C12_lss_impulse_length.
+
+Theorem C12_lss_replicate : forall n m k l (A C G : Qmat) Ho T' draws v x y,
+  replicate n m k l A C G Ho T' draws v = Some (x, y) ->
+  (forall j i x0 w, (i < n)%nat -> nth_error draws j = Some (x0, w) ->
+     exists xj, simulate_linear_model n A x0 (mmul n m T' C w) (S T') = Some xj /\ get x i j = get xj i T') /\
+  (forall j i, (j < length draws)%nat -> (i < k)%nat ->
+     get y i j == sumQ n (fun a => get G i a * get x a j) +
+                  match Ho with None => 0 | Some Hm => sumQ l (fun a => get Hm i a * get v a j) end).
+Proof. exact lss_replicate_spec. Qed.
+Print Assumptions C12_lss_replicate.
+
+Theorem C12_lss_geometric : forall n k p (A G : Qmat) beta xt Sx Sy,
+  geometric_sums n k p A G beta xt = Some (Sx, Sy) ->
+  meq n p (mmul n n p (msub n n (mid n) (mscale n n beta A)) Sx) xt /\ Sy = mmul k n p G Sx.
+Proof. exact lss_geometric. Qed.
+Print Assumptions C12_lss_geometric.
+
+(* the jitted kernel *)
+Theorem C12_simulate_linear_model_spec : forall n (A : Qmat) x0 v ts x,
+  simulate_linear_model n A x0 v ts = Some x ->
+  (forall i, (i < n)%nat -> get x i 0 = vget x0 i) /\
+  (forall t i, (S t < ts)%nat -> (i < n)%nat ->
+     get x i (S t) == get v i t + sumQ n (fun j => get A i j * get x j t)).
+Proof. exact simulate_linear_model_spec. Qed.
+Print Assumptions C12_simulate_linear_model_spec.
+
+(* simulate, as a function of the shocks drawn: x_{t+1} = A x_t + C w_{t+1}, y_t = G x_t + H v_t *)
+Theorem C12_lss_simulate_dynamics : forall n m k l (A C G : Qmat) Ho ts x0 w v2 x y,
+  simulate n m k l A C G Ho ts x0 w v2 = Some (x, y) ->
+  (forall i, (i < n)%nat -> get x i 0 = vget x0 i) /\
+  (forall t i, (S t < ts)%nat -> (i < n)%nat ->
+     get x i (S t) == sumQ n (fun j => get A i j * get x j t) + sumQ m (fun j => get C i j * get w j t)) /\
+  (forall t i, (t < ts)%nat -> (i < k)%nat ->
+     get y i t == sumQ n (fun j => get G i j * get x j t) +
+                  match Ho with None => 0 | Some Hm => sumQ l (fun j => get Hm i j * get v2 j t) end).
+Proof. exact lss_simulate_dynamics. Qed.
+Print Assumptions C12_lss_simulate_dynamics.
+
+(* stationary_distributions (at most one constant state; the code rejects two or more) returns a fixed point of
+   the moment recursion, provided the constant state has value 1 (the code copies mu_0 there but solves for the
+   other means as if it were 1) *)
+Theorem C12_lss_stationary_fixed_point : forall n m k l (A C G : Qmat) (Ho : option Qmat) (mu0 mu_x mu_y Sx Sy Syx : Qmat),
+  stationary_distributions n m k l A C G Ho mu0 = StatOk mu_x mu_y Sx Sy Syx ->
+  (forall sidx, partition n m A C = (1%nat, sidx) -> get mu0 (nth 0 sidx 0%nat) 0 == 1) ->
+  meq n 1 (mmul n n 1 A mu_x) mu_x /\
+  meq n n Sx (madd n n (mmul n n n (mmul n n n A Sx) (mtr n n A)) (outer n m C)) /\
+  mu_y = mmul k n 1 G mu_x /\ Sy = obs_cov n k l G Ho Sx /\ Syx = mmul k n n G Sx.
+Proof. exact lss_stationary_fixed_point. Qed.
+Print Assumptions C12_lss_stationary_fixed_point.
+
+(* ---------------------------------------------------------------- hypotheses are satisfiable *)
+Definition exA : Qmat := [[1#2; 1#4]; [0; 3#4]].
+Definition exC : Qmat := [[1; 0]; [1#2; 1]].
+Definition exG : Qmat := [[1; 1#2]].
+Definition exH : Qmat := [[1#2]].
+Definition exS : Qmat := [[2; 1#2]; [1#2; 1]].
+Definition exx : Qmat := [[1]; [-1#2]].
+
+Example ex_prior_to_filtered_defined :
+  exists st', prior_to_filtered 2 1 1 exG exH (exx, exS) [[3#2]] = Some st'.
+Proof. eexists. vm_compute. reflexivity. Qed.
+
+Example ex_one_step_defined :
+  msym 2 exS /\
+  (exists b, batch_conditional 2 2 1 1 exA exC exG exH exx exS [[[3#2]]] = Some b) /\
+  (exists s, update 2 2 1 1 exA exC exG exH (exx, exS) [[3#2]] = Some s).
+Proof.
+  split; [apply mall2_meq; vm_compute; reflexivity|].
+  split; eexists; vm_compute; reflexivity.
+Qed.
+
+Example ex_record_defined :
+  let ys := [[[3#2]]; [[-1]]; [[1#4]]] in
+  (exists b, batch_conditional 2 2 1 1 exA exC exG exH exx exS ys = Some b) /\
+  (exists s, last (kalman_path 2 2 1 1 exA exC exG exH (exx, exS) ys) None = Some s).
+Proof. split; eexists; vm_compute; reflexivity. Qed.
+
+Example ex_sym_psd_prior : msym 2 exS /\ mpsd 2 (outer 2 2 exC).
+Proof. split; [apply mall2_meq; vm_compute; reflexivity|apply mpsd_outer]. Qed.
+
+(* a 2-state model with an exactly rational stationary covariance:
+   A = I, C = diag(1,2), G = I, H = diag(2/3, 3/4): Sigma_inf = diag(4/3, 9/2), K_inf = diag(3/4, 8/9) *)
+Definition sA : Qmat := [[1; 0]; [0; 1]].
+Definition sC : Qmat := [[1; 0]; [0; 2]].
+Definition sH : Qmat := [[2#3; 0]; [0; 3#4]].
+Definition sS : Qmat := [[4#3; 0]; [0; 9#2]].
+Definition sFi : Qmat := [[9#16; 0]; [0; 16#81]].
+
+Example ex_stationary_hypotheses :
+  is_inv 2 (kal_F 2 2 sA (outer 2 2 sH) sS) sFi /\
+  meq 2 2 sS (dual_riccati_rhs 2 2 sA sA (outer 2 2 sC) sFi sS) /\
+  stationary_K 2 2 2 sA sA sH sS = Some [[3#4; 0]; [0; 8#9]] /\
+  exists st', update 2 2 2 2 sA sC sA sH ([[1]; [2]], sS) [[3]; [-1]] = Some st'.
+Proof.
+  split; [split; apply mall2_meq; vm_compute; reflexivity|].
+  split; [apply mall2_meq; vm_compute; reflexivity|].
+  split; [vm_compute; reflexivity|].
+  eexists. vm_compute. reflexivity.
+Qed.
+
+(* a constant state in the middle position, two other states *)
+Definition cA : Qmat := [[1#2; 1#4; 1#8]; [0; 1; 0]; [1#4; -1#2; 1#4]].
+Definition cC : Qmat := [[1; 0]; [0; 0]; [1#2; 1]].
+Definition cG : Qmat := [[1; 0; 1]].
+Definition cmu : Qmat := [[0]; [1]; [3]].
+
+Example ex_stationary_distributions_defined :
+  partition 3 2 cA cC = (1%nat, [1; 0; 2]%nat) /\ get cmu 1 0 == 1 /\
+  exists a b c d e, stationary_distributions 3 2 1 1 cA cC cG (Some exH) cmu = StatOk a b c d e.
+Proof.
+  split; [vm_compute; reflexivity|]. split; [reflexivity|].
+  do 5 eexists. vm_compute. reflexivity.
+Qed.
+
+Example ex_moments_defined :
+  exists r, nth_error (moment_seq 2 2 1 1 exA exC exG (Some exH) 4 exx exS) 3 = Some r.
+Proof. eexists. vm_compute. reflexivity. Qed.
+
+Example ex_impulse_defined :
+  exists xc yc, nth_error (fst (impulse_response 2 2 1 exA exC exG 3)) 3 = Some xc /\
+                nth_error (snd (impulse_response 2 2 1 exA exC exG 3)) 3 = Some yc.
+Proof. do 2 eexists. split; vm_compute; reflexivity. Qed.
+
+Example ex_geometric_defined :
+  exists r, geometric_sums 2 1 1 exA exG (19#20) exx = Some r.
+Proof. eexists. vm_compute. reflexivity. Qed.
+
+Example ex_simulate_defined :
+  exists r, simulate 2 2 1 1 exA exC exG (Some exH) 3 [1; -1#2] [[1; -1]; [1#2; 0]] [[1; 0; -2]] = Some r.
+Proof. eexists. vm_compute. reflexivity. Qed.
